@@ -131,6 +131,9 @@ func VerifyUnit(prog *Program, cs *ContractSet, uc *UnitContract) *UnitResult {
 		}
 		endPos = stmts[len(stmts)-1].End()
 	}
+	if len(uc.Uses) > 0 {
+		res.Errors = append(res.Errors, x.resolveUses(fu)...)
+	}
 	startPos := stmts[0].Pos()
 	if uc.Region == "" {
 		startPos = fu.Body.Pos() + 1
